@@ -102,6 +102,14 @@ pub fn parse_file(src: &str, file_id: FileID) -> Result<AST, Box<Report>> {
                 message: format!("Extra token `{}` found.", token.2),
                 location: token.0..token.2,
             },
+            UnrecognizedEof { location, ref expected } => ParsingError {
+                file_id,
+                message: format!(
+                    "Unrecognized EOF found at {location}.{}",
+                    format_expected(expected)
+                ),
+                location: location..location,
+            },
             _ => ParsingError { file_id, message: format!("{parse_error}"), location: 0..0 },
         })
         .map_err(|error| Box::new(error.into_report()))
